@@ -39,4 +39,10 @@ def enum : Nat → List κ → List (Nat × κ)
 /-- `_find_indices` (position-queue version): each id takes its first not-yet-used position. -/
 def findIndices (source ordered : List κ) : Option (List Nat) := assign ordered (enum 0 source)
 
+/-- the whole `argsort` for a recorded merge trace -/
+def argsort (source : List κ) (trace : List (Nat × Nat)) : Option (List Nat) :=
+  match cluster trace (source.map Tree.leaf) with
+  | some [t] => findIndices source t.inorder
+  | _ => none
+
 end Hpv.Sorting
